@@ -1,6 +1,6 @@
 CONSTANTS
   Layouts = {"TD1", "TD2", "TD3"}
-  Nums = {"A", "B", "C", "D", "E"}
+  Nums = {"A", "B", "C", "D", "E", "F"}
   Dobs = {"A", "B"}
   Exps = {"A", "B"}
   Opts = {"A", "N"}
